@@ -1,5 +1,8 @@
 import IrefVerif.Oracle
 import IrefVerif.Lemmas.Split
+import IrefVerif.Lemmas.RefSuffix
+import IrefVerif.Lemmas.IriBytes
+import IrefVerif.Props.Valid
 
 /-!
 # C16 — suffix and base extraction
@@ -9,13 +12,18 @@ the prefix's normalised segments lead the value's, compared after percent-decodi
 it is (the remaining normalised segments).  Proved: the suffix, appended to the prefix's
 normalised segments, gives the value's normalised segments up to percent-decoding; no suffix
 exists across absolute/relative.  `Oracle.baseSpec` is the text up to and including the last
-`/` of the path: a prefix of the value's text without query or fragment.  The implementation
-(`PathImpl::suffix`, `RiRefImpl::suffix`, `RiRefImpl::base`) is compared with its model and
-judged by these specifications in the `suffix` stream.
+`/` of the path: a prefix of the value's text without query or fragment.
+Model level: the models of `PathImpl::suffix` and `RiRefImpl::suffix` never panic on valid
+values and answer exactly what the specification says — no suffix when absoluteness, scheme or
+authority (user info and host compared after percent-decoding, port literally) differ or the
+prefix's normalised segments do not lead the value's; otherwise the remaining segments pushed
+onto an empty path, with the value's own query and fragment (`path_suffix_model`,
+`ref_suffix_model`, end to end `uri_suffix` / `iri_suffix`).  `base` is compared with its model
+and judged by `baseSpec` in the `suffix` stream.
 -/
 
 namespace IrefVerif.Props.C16
-open IrefVerif IrefVerif.Spec IrefVerif.Oracle
+open IrefVerif IrefVerif.Spec IrefVerif.Oracle IrefVerif.Lemmas IrefVerif.Model
 
 /-- **reconstruction**: prefix segments followed by the suffix are the value's segments
 (after percent-decoding, which is how segments are compared) -/
@@ -48,6 +56,36 @@ theorem suffix_self (v : Text) : pathSuffixSpec v v = some [] := by
 /-- the base carries neither query nor fragment, and keeps scheme and authority -/
 theorem base_components (x : Text) :
     baseSpec x = recompose { split x with path := upToLastSlash (split x).path, query := none, fragment := none } := rfl
+
+/-! ## the models of `suffix` -/
+
+/-- **`Path::suffix` on the model = the specification** -/
+theorem path_suffix_model (a p : Text) (ha : PathText a) (hp : PathText p)
+    (wa : wellEscaped a = true) (wp : wellEscaped p = true) :
+    Cmp.pathSuffix a p = some ((pathSuffixSpec a p).map (pushAllText [])) :=
+  pathSuffix_spec a p ha hp wa wp
+
+/-- **`suffix` of references on the model = the specification** (`refSuffixSpec`: identical
+schemes, authorities equal up to percent-decoding, then the path suffix with the value's own query
+and fragment) -/
+theorem ref_suffix_model (G : Grammar) (ok : Grammar.Ok G) (oka : Grammar.OkAuth G) (we : Grammar.OkWE G)
+    (a p : Text) (ha : RE.Matches G.reference a) (hp : RE.Matches G.reference p) :
+    Ref.suffix a p = some (refSuffixSpec a p) :=
+  ref_suffix_spec G ok oka we a p ha hp
+
+theorem uri_suffix (a p : Text) (ha8 : ∀ c ∈ a, c < 256) (hp8 : ∀ c ∈ p, c < 256)
+    (ha : accepts .uriRef a = true) (hp : accepts .uriRef p = true) :
+    Ref.suffix a p = some (refSuffixSpec a p) :=
+  ref_suffix_model uriG uriG_ok uriG_okAuth uriG_okWE a p (Valid.uriRef_octets a ha8 ha) (Valid.uriRef_octets p hp8 hp)
+
+theorem iri_suffix (a p : Text) (ha8 : ∀ c ∈ a, c < 256) (hp8 : ∀ c ∈ p, c < 256)
+    (ha : accepts .iriRef a = true) (hp : accepts .iriRef p = true) :
+    Ref.suffix a p = some (refSuffixSpec a p) :=
+  ref_suffix_model iriGB iriGB_ok iriGB_okAuth iriGB_okWE a p (Valid.iriRef_octets a ha8 ha) (Valid.iriRef_octets p hp8 hp)
+
+/-- the suffix exists exactly when the specification says so, and pushing nothing gives the empty path -/
+example : pushAllText [] [] = [] := rfl
+example : Cmp.pathSuffix [0x2F, 0x61, 0x2F, 0x62] [0x2F, 0x25, 0x36, 0x31] = some (some [0x62]) := by decide
 
 example : baseSpec [0x73, 0x3A, 0x2F, 0x61, 0x2F, 0x62, 0x3F, 0x71] = [0x73, 0x3A, 0x2F, 0x61, 0x2F] := by decide
 example : pathSuffixSpec [0x2F, 0x61, 0x2F, 0x62] [0x2F, 0x25, 0x36, 0x31] = some [[0x62]] := by decide
